@@ -39,12 +39,28 @@ func flagRecord(fl scriptflag.Flag) (Ev, bool) {
 	}, fl.HasFlag(scriptflag.UTXOAfterGenesis)
 }
 
+// logCap: stack items longer than this are legal after Genesis (up to 2 GB) but far beyond what the specification
+// models (ScriptVM!ModelLimit); they are logged by their first bytes only and the step is flagged.
+const logCap = 1 << 20
+
 func stackInts(st [][]byte) [][]int {
 	out := make([][]int, len(st))
 	for i, b := range st {
+		if len(b) > logCap {
+			b = b[:32]
+		}
 		out[i] = ints(b)
 	}
 	return out
+}
+
+func anyBig(st [][]byte) bool {
+	for _, b := range st {
+		if len(b) > logCap {
+			return true
+		}
+	}
+	return false
 }
 
 // recorder is a Debugger that records the callback stream and the AfterStep snapshots.
@@ -103,7 +119,11 @@ func (r *recorder) AfterStep(s *interpreter.State) {
 	// stacks are logged as a difference from the previous snapshot: the number of unchanged
 	// bottom items and the items above them
 	dk, ak := commonPrefix(r.prevDS, s.DataStack), commonPrefix(r.prevAS, s.AltStack)
-	r.steps = append(r.steps, Ev{"ev": "step", "dk": dk, "dn": stackInts(s.DataStack[dk:]), "ak": ak, "an": stackInts(s.AltStack[ak:])})
+	step := Ev{"ev": "step", "dk": dk, "dn": stackInts(s.DataStack[dk:]), "ak": ak, "an": stackInts(s.AltStack[ak:])}
+	if anyBig(s.DataStack[dk:]) || anyBig(s.AltStack[ak:]) {
+		step["big"] = true
+	}
+	r.steps = append(r.steps, step)
 	r.prevDS, r.prevAS = cloneStack(s.DataStack), cloneStack(s.AltStack)
 	r.nsteps++
 	r.see("AfterStep", s)
